@@ -4,16 +4,19 @@
 How much of the anchored implementation code do the compared cases of each property execute?
 (DESIGN.md §2, "how strongly is the model tied? - measured, not asserted".)
 
-For every property the correspondence run is repeated in a scratch output directory
+For every property the correspondence run is repeated in a scratch output directory, against a
+private snapshot of /repo/spatialpandas (fix commits land in /repo while this runs; executed and
+executable lines must refer to the same text)
 
-    VERIF_LINECOV=<scratch>/cov.json NUMBA_DISABLE_JIT=1 VERIF_OUT_DIR=<scratch>/out
+    VERIF_REPO=<scratch>/repo VERIF_LINECOV=<scratch>/cov.json NUMBA_DISABLE_JIT=1 VERIF_OUT_DIR=<scratch>/out
     VERIF_DEADLINE=<deadline> ./check Cxx --no-proof
 
 (./check installs the sys.monitoring LINE recorder of tools/linecov.py; helper processes that
 do not re-enter ./check get it from a sitecustomize put on PYTHONPATH; the numba kernels run
 as plain Python so that their lines are seen).  The executed lines are intersected with the
 executable lines (co_lines of every nested code object) of each `anchors.mechanism[].where`
-range of properties.jsonl.  Results: coverage/Cxx.json and coverage/SUMMARY.md.
+range of properties.jsonl (line numbers of the commit the work started from, translated to the
+measured text by a line diff against that commit, read from /repo/.git by tools/gitbase.py).  Results: coverage/Cxx.json and coverage/SUMMARY.md.
 evidence/ and replays/ of the real tree are never written (VERIF_OUT_DIR), the scratch
 directory is removed.
 
@@ -33,10 +36,19 @@ import signal
 import subprocess
 import sys
 import tempfile
+import threading
 import time
 
 VERIF = os.path.dirname(os.path.dirname(os.path.abspath(__file__)))
 REPO = os.environ.get('VERIF_REPO', '/repo')
+# Other work commits fixes to REPO while this tool runs: every measurement runs against (and is
+# analysed on) a private snapshot of REPO/spatialpandas, so executed and executable lines always
+# refer to the same text.  root() = the snapshot of the current worker thread (REPO outside a run).
+_TL = threading.local()
+
+
+def root():
+    return getattr(_TL, 'root', REPO)
 COVDIR = os.path.join(VERIF, 'coverage')
 sys.path.insert(0, os.path.dirname(os.path.abspath(__file__)))
 import gitbase  # noqa: E402  (pure-Python, read-only access to /repo/.git)
@@ -81,9 +93,9 @@ def parse_where(where, anchor_files):
         if prev:
             cands.append(os.path.join(os.path.dirname(prev), name))
         cands += [f for f in anchor_files if f.endswith('/' + name)]
-        cands += [os.path.relpath(p, REPO) for p in
-                  glob.glob(os.path.join(REPO, 'spatialpandas', '**', os.path.basename(name)), recursive=True)]
-        f = next((c for c in cands if os.path.isfile(os.path.join(REPO, c))), None)
+        cands += [os.path.relpath(p, root()) for p in
+                  glob.glob(os.path.join(root(), 'spatialpandas', '**', os.path.basename(name)), recursive=True)]
+        f = next((c for c in cands if os.path.isfile(os.path.join(root(), c))), None)
         if f is None:
             out.append((name, None))
             continue
@@ -102,8 +114,9 @@ _EXEC_CACHE = {}
 
 def executable_lines(relfile):
     """line numbers that carry bytecode, over the module and all nested code objects"""
-    if relfile not in _EXEC_CACHE:
-        path = os.path.join(REPO, relfile)
+    key = (root(), relfile)
+    if key not in _EXEC_CACHE:
+        path = os.path.join(root(), relfile)
         src = open(path).read()
         lines = set()
         try:
@@ -116,14 +129,14 @@ def executable_lines(relfile):
                 if ln:
                     lines.add(ln)
             todo += [c for c in co.co_consts if hasattr(c, 'co_lines')]
-        _EXEC_CACHE[relfile] = (lines, src.splitlines())
-    return _EXEC_CACHE[relfile]
+        _EXEC_CACHE[key] = (lines, src.splitlines())
+    return _EXEC_CACHE[key]
 
 
 def file_sha1(relfile):
     import hashlib
     try:
-        return hashlib.sha1(open(os.path.join(REPO, relfile), 'rb').read()).hexdigest()
+        return hashlib.sha1(open(os.path.join(root(), relfile), 'rb').read()).hexdigest()
     except OSError:
         return None
 
@@ -165,7 +178,8 @@ BASE = os.environ.get('VERIF_ANCHOR_BASE') or gitbase.base_commit(REPO)
 
 def _opcodes(relfile):
     """difflib opcodes base-commit text -> working-tree text (None: file unchanged / no base)"""
-    if relfile not in _MAP_CACHE:
+    key = (root(), relfile)
+    if key not in _MAP_CACHE:
         ops = None
         try:
             old = gitbase.file_at(REPO, BASE, relfile) if BASE else None
@@ -173,11 +187,11 @@ def _opcodes(relfile):
             old = None
         if old is not None:
             a = old.decode('utf8', 'replace').splitlines()
-            b = open(os.path.join(REPO, relfile), errors='replace').read().splitlines()
+            b = open(os.path.join(root(), relfile), errors='replace').read().splitlines()
             if a != b:
                 ops = difflib.SequenceMatcher(None, a, b, autojunk=False).get_opcodes()
-        _MAP_CACHE[relfile] = ops
-    return _MAP_CACHE[relfile]
+        _MAP_CACHE[key] = ops
+    return _MAP_CACHE[key]
 
 
 def map_ranges(relfile, ranges):
@@ -217,7 +231,7 @@ def one_run(pid, deadline, scratch, tag, jit_disabled, cpus=None):
     env = dict(os.environ)
     for k in ('VERIF_LINECOV_OWNER', 'NUMBA_DISABLE_JIT', 'VERIF_TIER'):
         env.pop(k, None)
-    env.update(VERIF_LINECOV=cov, VERIF_OUT_DIR=out, VERIF_DEADLINE=str(deadline), VERIF_REPO=REPO,
+    env.update(VERIF_LINECOV=cov, VERIF_OUT_DIR=out, VERIF_DEADLINE=str(deadline), VERIF_REPO=root(),
                PYTHONPATH=site + (os.pathsep + env['PYTHONPATH'] if env.get('PYTHONPATH') else ''))
     if jit_disabled:
         env['NUMBA_DISABLE_JIT'] = '1'
@@ -290,6 +304,10 @@ def measure(prop, deadline, cpus=None, keep=False):
     scratch = tempfile.mkdtemp(prefix=f'sp_implcov_{pid}_')
     t0 = time.time()
     try:
+        snap = os.path.join(scratch, 'repo')
+        shutil.copytree(os.path.join(REPO, 'spatialpandas'), os.path.join(snap, 'spatialpandas'),
+                        ignore=shutil.ignore_patterns('__pycache__'))
+        _TL.root = snap
         runs = []
         r, hits = one_run(pid, deadline, scratch, 'nojit', True, cpus)
         runs.append(r)
@@ -303,6 +321,7 @@ def measure(prop, deadline, cpus=None, keep=False):
                 hits.setdefault(fn, set()).update(s)
         return analyse(prop, hits, runs, jit_required, time.time() - t0, deadline)
     finally:
+        _TL.root = REPO
         if keep:
             print('scratch kept:', scratch, file=sys.stderr)
         else:
@@ -314,7 +333,7 @@ def analyse(prop, hits, runs, jit_required, wall, deadline):
     anchor_files = [os.path.normpath(f) for f in prop['anchors']['files']]
 
     def hit_of(rel):
-        return hits.get(os.path.realpath(os.path.join(REPO, rel)), set())
+        return hits.get(os.path.realpath(os.path.join(root(), rel)), set())
 
     mechs = []
     files_seen = list(anchor_files)
@@ -359,7 +378,8 @@ def analyse(prop, hits, runs, jit_required, wall, deadline):
     last = runs[0]
     return {
         'property_id': pid,
-        'command': f'VERIF_LINECOV=<scratch>/cov.json NUMBA_DISABLE_JIT=1 VERIF_OUT_DIR=<scratch>/out '
+        'command': f'VERIF_REPO=<snapshot of {REPO}/spatialpandas> '
+                   f'VERIF_LINECOV=<scratch>/cov.json NUMBA_DISABLE_JIT=1 VERIF_OUT_DIR=<scratch>/out '
                    f'VERIF_DEADLINE={deadline} ./check {pid} --no-proof',
         'tier': 'quick',
         'anchor_base_commit': BASE,
@@ -376,7 +396,7 @@ def analyse(prop, hits, runs, jit_required, wall, deadline):
         'files': files,
         # every executed line under REPO/spatialpandas (runs), so that the figures can be recomputed
         # (--reanalyse) after properties.jsonl changes without repeating the run
-        'executed': {os.path.relpath(fn, os.path.realpath(REPO)): ','.join(runs_of(lns))
+        'executed': {os.path.relpath(fn, os.path.realpath(root())): ','.join(runs_of(lns))
                      for fn, lns in sorted(hits.items()) if lns},
     }
 
@@ -389,7 +409,7 @@ def reanalyse(prop, deadline):
         return d
     hits = {}
     for rel, runs in d['executed'].items():
-        s = hits.setdefault(os.path.realpath(os.path.join(REPO, rel)), set())
+        s = hits.setdefault(os.path.realpath(os.path.join(root(), rel)), set())
         for r in runs.split(','):
             a, _, b = r.partition('-')
             s.update(range(int(a), int(b or a) + 1))
